@@ -999,7 +999,7 @@ def model_checking(run, tier):
 
 def generate(run, tier, tmp):
     """programs from Gen_Socket (simulation seeded by VERIF_SEED; a fixed seed gives the same programs)"""
-    n_stream, n_dgram = (90, 50) if tier == "quick" else (1000, 600)
+    n_stream, n_dgram = (90, 50) if tier == "quick" else (2500, 1500)
     progs = []
 
     def gen(item):
